@@ -4,6 +4,44 @@ from checks import selfmut
 import json
 
 
+# scenario families whose event rejections are named after the family and the class of the
+# expected key report at the divergence (specs/input/ReportsKeys.tla)
+NEW_KINDS = ("esc-c0-then-keys", "esc-prefixed-key", "esc-sos-pm-key", "cpr-timing")
+
+
+def _no_optional(fn):
+    """apply a corruption only to scenarios without optional (ambiguous) expected events"""
+    def g(evs):
+        for e in evs:
+            if e.get("ev") == "run" and any(r.get("opt") for r in e.get("reports", [])):
+                return None
+        return fn(evs)
+    g.__doc__ = fn.__doc__
+    return g
+
+
+def key_gains_alt(evs):
+    """a delivered plain key carries an Alt modifier it was not pressed with"""
+    for e in evs:
+        if e.get("ev") == "run" and not e.get("loose"):
+            want = [r for r in e.get("reports", []) if r.get("k") == "key"]
+            if len(want) == len(e.get("events", [])) and all(x.get("t") == "key" for x in e["events"]):
+                for r, x in zip(want, e["events"]):
+                    if r.get("mods") == 0 and r.get("cls") == "" and not r.get("opt"):
+                        x["mods"] = 2
+                        return evs
+    return None
+
+
+def phantom_key(evs):
+    """a reply surfaces as an extra key event at the end of a judged key stream"""
+    for e in evs:
+        if e.get("ev") == "run" and not e.get("loose") and e.get("events") and not any(r.get("opt") for r in e.get("reports", [])):
+            e["events"].append({"t": "key", "code": 5, "paste": False, "mods": 6})
+            return evs
+    return None
+
+
 def sig_of(rej, scn):
     why = rej.get("why")
     kind = scn["desc"].get("Kind")
@@ -11,7 +49,13 @@ def sig_of(rej, scn):
         d = (rej.get("detail") or "")
         return "C03:panic:" + "".join(ch if ch.isalnum() else "-" for ch in d[7:60]).strip("-")
     if why == "events":
-        return "C03:events:want=%s:got=%s" % ((rej.get("want") or {}).get("t"), (rej.get("got") or {}).get("t"))
+        wg = "want=%s:got=%s" % ((rej.get("want") or {}).get("t"), (rej.get("got") or {}).get("t"))
+        cls = rej.get("class") or ""
+        if cls == "alt-carried-after-esc-c0":       # the oracle's diagnosis: nothing else differs in the run
+            return "C03:events:" + cls
+        if kind in NEW_KINDS:
+            return "C03:events:%s:%s:%s" % (kind, cls or "-", wg)
+        return "C03:events:" + wg
     if why == "query-answer":
         a = rej.get("answer") or {}
         return "C03:query-answer:%s:%s" % (a.get("q"), "blocked" if a.get("got") == "blocked" else "wrong")
@@ -22,7 +66,9 @@ def main(c):
     drv = c.build()
     specs = c.stage_specs("input")
     c.assumptions += [
-        "key decoding proper is C09's oracle; here a key report is one key event (exact code only for plain ASCII letters), marked pasted inside brackets",
+        "key decoding proper is C09's oracle; here a key report is one key event (exact code only for plain ASCII letters), marked pasted inside brackets; "
+        "modifiers are judged only on single printable ASCII bytes (none) in the esc-*/cpr-timing families",
+        "CSI 1;c R is both F3 with modifiers and a cursor position report on row 1: either reading is accepted (optional event); CSI r;c R with r != 1 is never a key",
         "events of the library's unexported internal types (capability/reply notifications) are not application-visible user input and are filtered",
         "a query call's answer must be a value the terminal reported for that kind (its reply or one volunteered earlier)",
     ]
@@ -31,11 +77,16 @@ def main(c):
         c.model_check(specs, "InputLoop.tla", "MC_InputLoop.cfg", workers=8)
         ok, _ = c.model_check(specs, "InputLoop.tla", "MC_InputLoop_prefix.cfg", workers=4, expect_violation=True)
         c.cov["prefix_handoff_model_wedges_as_expected"] = not ok
+        if c.tier == "thorough":   # non-vacuity of NoPhantom: the shape that decodes every unrequested CSI r;c R as a key violates it
+            ok, _ = c.model_check(specs, "InputLoop.tla", "MC_InputLoop_stale.cfg", workers=4, expect_violation=True)
+            c.cov["stale_report_model_delivers_phantom_key_as_expected"] = not ok
     td = c.drive(drv, "c03", replay=c.replay)
     rejects, _ = c.validate_traces(specs, "Reports_Trace.tla", "Reports_Trace.cfg", td)
     if not c.replay:
         c.cov["binding_selftest"] = vselftest.run(c, specs, "Reports_Trace.tla", "Reports_Trace.cfg", td, {r["scn"] for r in rejects}, [
-            ("delivered event missing", selfmut.event_dropped),
+            ("delivered event missing", _no_optional(selfmut.event_dropped)),
+            ("plain key gains Alt", key_gains_alt),
+            ("reply surfaces as a key", phantom_key),
             ("mouse event one column off", selfmut.mouse_moved),
             ("input loop stalled", selfmut.loop_stalled),
         ])
@@ -52,4 +103,6 @@ def main(c):
         rule="scenario = capability set x (strict stream of legacy/kitty keys, SGR mouse reports with every button byte, focus, "
              "paste brackets with arbitrary content, interleaved replies | robust stream of unsolicited/repeated/truncated/"
              "malformed replies and garbage | query calls with on-time/late/never replies preceded by unsolicited ones); "
+             "| ESC + control byte, silence, keys | ESC + non-ASCII / ESC ESC / ESC X keys then keys | cursor position requests "
+             "(late/never/in-time replies on row 1 and other rows, F3 chords while outstanding) inside a judged key stream; "
              "each ends with an in-band sentinel key; distinct = distinct descriptor")
